@@ -87,9 +87,46 @@ let run_dispatch () =
    with End_of_file -> ());
   close_in hf; close_in tf
 
+let ints_line (l : z list) : string =
+  String.concat " " (List.map (fun x -> string_of_int (int_of_z x)) l)
+
+(* driver conc <cases> <impl-transcripts>
+   per case: the model transcript, then "V <decoded> <eq> <c10_ok>" *)
+let main_conc () =
+  let hf = open_in Sys.argv.(2) in
+  let tf = open_in Sys.argv.(3) in
+  (try
+     while true do
+       let h = List.map z_of_int (ints_of_line (input_line hf)) in
+       let t = transcript_of_line (input_line tf) in
+       let m = conc_transcript h in
+       let eq = zlists_eqb m t in
+       let v = conc_verdict h t eq in
+       print_string (line_of_transcript m);
+       print_newline ();
+       print_string ("V " ^ ints_line v);
+       print_newline ()
+     done
+   with End_of_file -> ());
+  close_in hf; close_in tf
+
+(* driver conc-enum <cases>: per case one line, its schedules separated by " | " *)
+let main_conc_enum () =
+  let hf = open_in Sys.argv.(2) in
+  (try
+     while true do
+       let h = List.map z_of_int (ints_of_line (input_line hf)) in
+       print_string (line_of_transcript (conc_enum h));
+       print_newline ()
+     done
+   with End_of_file -> ());
+  close_in hf
+
 let () =
   match Sys.argv.(1) with
   | "world" -> run_world ()
   | "dispatch" -> run_dispatch ()
   | "derive" -> run_derive ()
+  | "conc" -> main_conc ()
+  | "conc-enum" -> main_conc_enum ()
   | d -> failwith ("unknown domain " ^ d)
